@@ -300,6 +300,37 @@ func Yield() { runtime.Gosched() }
 // Unfinished is the number of spawned goroutines that have not terminated (engine only).
 func Unfinished() int { return 0 }
 
+// GoroutinesSettled lets every goroutine run until nothing more can happen (engine: all goroutines
+// finished or blocked with no timer left to fire) and returns how many goroutines exist besides the
+// caller.  Natively it waits until runtime.NumGoroutine has been stable for 150 ms (at most 5 s).
+func GoroutinesSettled() int {
+	last, stableSince := runtime.NumGoroutine(), time.Now()
+	deadline := time.Now().Add(5 * time.Second)
+	for time.Now().Before(deadline) {
+		time.Sleep(10 * time.Millisecond)
+		n := runtime.NumGoroutine()
+		if n != last {
+			last, stableSince = n, time.Now()
+			continue
+		}
+		if time.Since(stableSince) >= 150*time.Millisecond {
+			break
+		}
+	}
+	return last - 1
+}
+
+// VirtualNow is the discrete-event clock of the engine in nanoseconds (TIMERS_DES=1); natively -1.
+func VirtualNow() int64 { return -1 }
+
+// NewDeadlineChan is closed when d has passed on the engine's discrete-event clock (TIMERS_DES=1);
+// natively after d of real time.
+func NewDeadlineChan(d time.Duration) chan struct{} {
+	ch := make(chan struct{})
+	time.AfterFunc(d, func() { close(ch) })
+	return ch
+}
+
 // ---- JSON boundary helpers (DESIGN.md 3.2).  Natively these are the real encoding/json; under the
 // interpreter json.Marshal yields an opaque token that maps back to the Go value and
 // json.Unmarshal of a token hands the code that value.
